@@ -1,9 +1,576 @@
-"""Kani side (stub; filled in below)."""
+"""Kani side: contract harnesses over the REAL macro invocations (nothing is extracted here).
+
+One generated crate per property under /verif/work/kani_<prop>; the declarations are ordinary
+`#[nutype(..)]` items compiled by Kani's rustc with `nutype = { path = "/repo/nutype" }`.  Every
+harness states requires (kani::assume) / ensures (assert) of one real function against the
+executable reference generated from the abstract declaration, over kani::any() inputs; the
+functions are loop-free (or fully unwound with unwinding assertions), so a passing harness is a
+complete proof for all inputs, not a bounded one, unless it is labelled bounded.
+"""
+import json
+import os
+import re
+import shutil
+import time
+
+from . import aux, pipeline, report
+from .catalogue import mk, camel
+from .decl import Decl, Sanitizer, Validator, Bound, Custom, INT_TYPES, FLOAT_TYPES, VARIANT, int_min, int_max
+from .refgen import ref_module, concrete_inner, concrete_self
+from .annotate import Undecided
+
+KANI_FLAGS = ['-Z', 'function-contracts', '-Z', 'stubbing']
+
+
+class Harness:
+    def __init__(self, decl: Decl, what: str, props, body: str, attrs='', clause='', bounded=None, should_panic=False):
+        self.decl = decl
+        self.what = what
+        self.props = props
+        self.body = body
+        self.attrs = attrs
+        self.clause = clause
+        self.bounded = bounded       # None or a string describing the bound
+        self.should_panic = should_panic
+        self.name = 'k_%s__%s' % (decl.id, re.sub(r'[^A-Za-z0-9_]', '_', what))
+        self.key = '%s::%s' % (decl.id, what)
+
+    def text(self):
+        sp = '#[kani::should_panic]\n    ' if self.should_panic else ''
+        return '    #[kani::proof]\n    %s%sfn %s() {\n%s\n        kani::cover!(true, "reached");\n    }\n' % (
+            sp, self.attrs, self.name, self.body)
+
+
+def sym_setup(d: Decl):
+    out = ''
+    for n in d.aux:
+        m = re.match(r'sym_(lo|hi)_([a-z0-9]+)$', n)
+        if m:
+            out += '        unsafe { SYM_%s_%s = kani::any(); }\n' % (m.group(1).upper(), m.group(2).upper())
+        if n in ('sym_len_lo', 'sym_len_hi'):
+            out += '        unsafe { %s = kani::any(); }\n' % n.upper()
+    return out
+
+
+def bits(d: Decl, e: str):
+    return '%s.to_bits()' % e if d.family == 'float' else e
+
+
+def anyval(d: Decl, var='raw'):
+    I = concrete_inner(d)
+    if I == 'Point':
+        return '        let %s = Point { x: kani::any(), y: kani::any() };\n' % var
+    return '        let %s: %s = kani::any();\n' % (var, I)
+
+
+def mapbits(d):
+    return '.map(|v| v.to_bits())' if d.family == 'float' else ''
+
+
+# ------------------------------------------------------------------------------ harness templates
+def h_ctor(d: Decl, props):
+    S = concrete_self(d)
+    R = 'ref_' + d.id
+    if d.has_validation:
+        body = (sym_setup(d) + anyval(d) +
+                '        let real = %s::try_new(raw).map(|v| %s);\n' % (S, bits(d, 'v.into_inner()')) +
+                '        let expect = %s::try_new(raw)%s;\n' % (R, mapbits(d)) +
+                '        assert!(real == expect, "try_new(raw) == spec_try_new(raw)");\n')
+        return Harness(d, 'try_new', props, body, clause='try_new(raw) == validate(sanitize(raw)) ? Ok(sanitize(raw)) : Err(first violated), bit-exact, no panic')
+    body = (sym_setup(d) + anyval(d) +
+            '        let real = %s;\n' % bits(d, '%s::new(raw).into_inner()' % S) +
+            '        let expect = %s;\n' % bits(d, '%s::sanitize(raw)' % R) +
+            '        assert!(real == expect, "new(raw).into_inner() == spec_sanitize(raw)");\n')
+    return Harness(d, 'new', props, body, clause='new(raw).into_inner() == sanitize(raw), bit-exact, no panic')
+
+
+def h_try_from(d: Decl, props):
+    S = concrete_self(d)
+    R = 'ref_' + d.id
+    if d.has_validation:
+        body = (sym_setup(d) + anyval(d) +
+                '        let real = <%s as ::core::convert::TryFrom<%s>>::try_from(raw).map(|v| %s);\n' % (S, concrete_inner(d), bits(d, 'v.into_inner()')) +
+                '        let expect = %s::try_new(raw)%s;\n' % (R, mapbits(d)) +
+                '        assert!(real == expect, "try_from(raw) == spec_try_new(raw)");\n')
+    else:
+        body = (sym_setup(d) + anyval(d) +
+                '        let real = <%s as ::core::convert::TryFrom<%s>>::try_from(raw).map(|v| %s);\n' % (S, concrete_inner(d), bits(d, 'v.into_inner()')) +
+                '        assert!(real == Ok(%s), "try_from(raw) == Ok(new(raw))");\n' % bits(d, '%s::sanitize(raw)' % R))
+    return Harness(d, 'TryFrom::try_from', props, body, clause='try_from(raw) == spec_try_new(raw)')
+
+
+def h_from(d: Decl, props):
+    S = concrete_self(d)
+    R = 'ref_' + d.id
+    body = (sym_setup(d) + anyval(d) +
+            '        let real = %s;\n' % bits(d, '<%s as ::core::convert::From<%s>>::from(raw).into_inner()' % (S, concrete_inner(d))) +
+            '        assert!(real == %s, "from(raw).into_inner() == spec_sanitize(raw)");\n' % bits(d, '%s::sanitize(raw)' % R))
+    return Harness(d, 'From::from', props, body, clause='from(raw).into_inner() == sanitize(raw)')
+
+
+def h_default(d: Decl, props, valid=True):
+    S = concrete_self(d)
+    R = 'ref_' + d.id
+    dv = d.default_ref if d.default_ref is not None else d.default
+    clause = 'default() == try_new(default expr).unwrap(); panics when the constructor rejects the default expression'
+    if not valid:
+        # single-path harness (literal default): passes iff default() panics; nothing else can panic here
+        body = '        let _v = <%s as Default>::default();\n' % S
+        return Harness(d, 'Default::default(invalid => panic)', props, body, should_panic=True, clause=clause)
+    if d.family == 'string':
+        cmp_real = '<%s as Default>::default().into_inner()' % S
+        if d.has_validation:
+            body = ('        let expect = %s::try_new(String::from(%s));\n' % (R, dv) +
+                    '        let real = %s;\n' % cmp_real +
+                    '        assert!(Ok(real) == expect, "default() == try_new(default_expr).unwrap()");\n')
+        else:
+            body = ('        let real = %s;\n        assert!(real == %s::sanitize(String::from(%s)), "default() == new(default_expr)");\n' % (cmp_real, R, dv))
+        return Harness(d, 'Default::default', props, sym_setup(d) + body, clause=clause)
+    if d.has_validation:
+        body = (sym_setup(d) +
+                '        let dv: %s = %s;\n' % (concrete_inner(d), dv) +
+                '        let expect = %s::try_new(dv)%s;\n' % (R, mapbits(d)) +
+                '        kani::assume(expect.is_ok());\n'
+                '        let real = %s;\n' % bits(d, '<%s as Default>::default().into_inner()' % S) +
+                '        assert!(Ok(real) == expect, "default() == try_new(default_expr).unwrap()");\n')
+    else:
+        body = (sym_setup(d) +
+                '        let dv: %s = %s;\n' % (concrete_inner(d), dv) +
+                '        let real = %s;\n' % bits(d, '<%s as Default>::default().into_inner()' % S) +
+                '        assert!(real == %s, "default() == new(default_expr)");\n' % bits(d, '%s::sanitize(dv)' % R))
+    return Harness(d, 'Default::default', props, body, clause=clause)
+
+
+def obtain(d: Decl, var, src):
+    """code that obtains a value `var` of the newtype from a symbolic inner `src` (assume accepted)"""
+    S = concrete_self(d)
+    if d.has_validation:
+        return ('        let %s_r = %s::try_new(%s);\n        kani::assume(%s_r.is_ok());\n        let %s = %s_r.unwrap();\n'
+                % (var, S, src, var, var, var))
+    return '        let %s = %s::new(%s);\n' % (var, S, src)
+
+
+def h_canonical(d: Decl, props):
+    """C11: try_new(v.into_inner()) == Ok(v)"""
+    S = concrete_self(d)
+    body = (sym_setup(d) + anyval(d) + obtain(d, 'v', 'raw') +
+            '        let i = v.into_inner();\n')
+    if d.has_validation:
+        body += '        let again = %s::try_new(i).map(|w| %s);\n        assert!(again == Ok(%s), "try_new(v.into_inner()) == Ok(v)");\n' % (S, bits(d, 'w.into_inner()'), bits(d, 'i'))
+    else:
+        body += '        let again = %s;\n        assert!(again == %s, "new(v.into_inner()) == v");\n' % (bits(d, '%s::new(i).into_inner()' % S), bits(d, 'i'))
+    return Harness(d, 'canonical', props, body, clause='forall obtainable v: try_new(v.into_inner()) == Ok(v)')
+
+
+def h_views(d: Decl, props):
+    S = concrete_self(d)
+    I = concrete_inner(d)
+    body = sym_setup(d) + anyval(d) + obtain(d, 'v', 'raw') + '        let inner = %s;\n' % bits(d, 'ref_%s::sanitize(raw)' % d.id)
+    if 'AsRef' in d.derives:
+        body += '        { let r: &%s = v.as_ref(); assert!(%s == inner, "as_ref() exposes the stored value"); }\n' % (I, bits(d, '(*r)'))
+    if 'Deref' in d.derives:
+        body += '        { let r: &%s = &*v; assert!(%s == inner, "deref() exposes the stored value"); }\n' % (I, bits(d, '(*r)'))
+    if 'Borrow' in d.derives:
+        body += '        { let r: &%s = ::core::borrow::Borrow::borrow(&v); assert!(%s == inner, "borrow() exposes the stored value"); }\n' % (I, bits(d, '(*r)'))
+    if 'Clone' in d.derives:
+        body += '        { let c = v.clone(); assert!(%s == inner, "clone() is an equal value"); }\n' % bits(d, 'c.into_inner()')
+    if 'Into' in d.derives:
+        body += '        { let r: %s = v.into(); assert!(%s == inner, "into() is the stored value"); }\n' % (I, bits(d, 'r'))
+    else:
+        body += '        assert!(%s == inner, "into_inner() is the stored value");\n' % bits(d, 'v.into_inner()')
+    return Harness(d, 'views', props, body, clause='AsRef/Deref/Borrow/Clone/Into expose exactly the stored (sanitized) inner value')
+
+
+def h_cmp(d: Decl, props):
+    """derived PartialEq/PartialOrd/Ord agree with the inner values"""
+    S = concrete_self(d)
+    body = (sym_setup(d) + anyval(d, 'ra') + anyval(d, 'rb') + obtain(d, 'a', 'ra') + obtain(d, 'b', 'rb') +
+            '        let ia = ref_%s::sanitize(ra); let ib = ref_%s::sanitize(rb);\n' % (d.id, d.id))
+    if 'PartialEq' in d.derives:
+        body += '        assert!((a == b) == (ia == ib), "== agrees with the inner values");\n        assert!((a != b) == (ia != ib), "!= agrees with the inner values");\n'
+    if 'PartialOrd' in d.derives:
+        body += ('        assert!(a.partial_cmp(&b) == ia.partial_cmp(&ib), "partial_cmp agrees with the inner values");\n'
+                 '        assert!((a < b) == (ia < ib) && (a <= b) == (ia <= ib) && (a > b) == (ia > ib) && (a >= b) == (ia >= ib), "comparison operators agree");\n')
+    if 'Ord' in d.derives and d.family != 'float':
+        body += '        assert!(a.cmp(&b) == ia.cmp(&ib), "cmp agrees with the inner values");\n'
+    return Harness(d, 'comparisons', props, body, clause='PartialEq/PartialOrd/Ord of two obtainable values == the same on the inner values')
+
+
+HASHER = '''
+    pub struct RecHasher { pub log: [u64; 8], pub n: usize }
+    impl RecHasher { pub fn new() -> Self { RecHasher { log: [0; 8], n: 0 } } fn push(&mut self, tag: u64, v: u64) { if self.n + 1 < 8 { self.log[self.n] = tag; self.log[self.n + 1] = v; self.n += 2; } else { self.n = 99; } } }
+    impl ::core::hash::Hasher for RecHasher {
+        fn finish(&self) -> u64 { 0 }
+        fn write(&mut self, bytes: &[u8]) { let mut acc = 0u64; let mut i = 0; while i < bytes.len() && i < 16 { acc = acc.wrapping_mul(257).wrapping_add(bytes[i] as u64); i += 1; } self.push(1000 + bytes.len() as u64, acc); }
+        fn write_u8(&mut self, i: u8) { self.push(1, i as u64); }
+        fn write_u16(&mut self, i: u16) { self.push(2, i as u64); }
+        fn write_u32(&mut self, i: u32) { self.push(3, i as u64); }
+        fn write_u64(&mut self, i: u64) { self.push(4, i); }
+        fn write_u128(&mut self, i: u128) { self.push(5, i as u64); self.push(55, (i >> 64) as u64); }
+        fn write_usize(&mut self, i: usize) { self.push(6, i as u64); }
+        fn write_i8(&mut self, i: i8) { self.push(7, i as u64); }
+        fn write_i16(&mut self, i: i16) { self.push(8, i as u64); }
+        fn write_i32(&mut self, i: i32) { self.push(9, i as u64); }
+        fn write_i64(&mut self, i: i64) { self.push(10, i as u64); }
+        fn write_i128(&mut self, i: i128) { self.push(11, i as u64); self.push(111, ((i as u128) >> 64) as u64); }
+        fn write_isize(&mut self, i: isize) { self.push(12, i as u64); }
+    }
+'''
+
+
+def h_hash(d: Decl, props):
+    S = concrete_self(d)
+    body = (sym_setup(d) + anyval(d) + obtain(d, 'v', 'raw') +
+            '        use ::core::hash::Hash;\n'
+            '        let mut h1 = RecHasher::new(); let mut h2 = RecHasher::new();\n'
+            '        v.hash(&mut h1);\n'
+            '        let b: &%s = ::core::borrow::Borrow::borrow(&v);\n' % concrete_inner(d) +
+            '        b.hash(&mut h2);\n'
+            '        assert!(h1.n == h2.n && h1.n < 9 && h1.log == h2.log, "Hash feeds the hasher exactly what the borrowed inner value feeds");\n')
+    return Harness(d, 'hash', props, body, clause='the Hasher call sequence of v equals that of Borrow::borrow(&v)')
+
+
+def h_float_ord(d: Decl, props):
+    """C12: lawful Eq / total Ord on obtainable values"""
+    S = concrete_self(d)
+    body = (sym_setup(d) + anyval(d, 'ra') + anyval(d, 'rb') + anyval(d, 'rc') +
+            obtain(d, 'a', 'ra') + obtain(d, 'b', 'rb') + obtain(d, 'c', 'rc') +
+            '        let (ia, ib, ic) = (a.into_inner(), b.into_inner(), c.into_inner());\n'
+            '        assert!(ia.is_finite() && ib.is_finite() && ic.is_finite(), "only finite values are obtainable");\n'
+            '        use ::core::cmp::Ordering;\n'
+            '        assert!(a == a, "== is reflexive");\n'
+            '        let ab = a.cmp(&b); let ba = b.cmp(&a); let bc = b.cmp(&c); let ac = a.cmp(&c);\n'
+            '        assert!(ab == ba.reverse(), "cmp is antisymmetric");\n'
+            '        assert!(Some(ab) == ia.partial_cmp(&ib), "cmp agrees with partial_cmp of the inner floats");\n'
+            '        assert!((ab == Ordering::Equal) == (a == b), "cmp == Equal iff ==");\n'
+            '        if ab != Ordering::Greater && bc != Ordering::Greater { assert!(ac != Ordering::Greater, "cmp is transitive (<=)"); }\n'
+            '        if ab == Ordering::Equal && bc == Ordering::Equal { assert!(ac == Ordering::Equal, "equality is transitive"); }\n'
+            '        assert!(a.partial_cmp(&b) == Some(ab), "PartialOrd agrees with Ord");\n')
+    return Harness(d, 'ord_laws', props, body,
+                   clause='forall obtainable a,b,c: finite; a==a; cmp total, antisymmetric, transitive, == partial_cmp of inner, never panics')
+
+
+# ------------------------------------------------------------------------------ crate + run
+def crate_text(decls, harnesses, extra_items='', features=()):
+    names = []
+    for d in decls:
+        names.extend(d.aux)
+    out = ['#![allow(dead_code, unused_imports, unused_variables, unused_mut, static_mut_refs, non_snake_case, non_upper_case_globals, unused_unsafe, clippy::all)]\n',
+           'use nutype::nutype;\n', aux.render(names, 'kani'), '\n']
+    for d in decls:
+        out.append('pub mod d_%s {\n    use super::*;\n%s}\n' % (d.id, ''.join('    ' + l + '\n' for l in d.source().splitlines())))
+        out.append('pub use d_%s::*;\n' % d.id)
+        out.append(ref_module(d))
+    out.append(extra_items)
+    out.append('#[cfg(kani)]\nmod harness {\n    use super::*;\n')
+    for h in harnesses:
+        out.append(h.text())
+    out.append('}\n')
+    return ''.join(out)
+
+
+def write_crate(tag, text, features=('serde', 'arbitrary'), deps=('serde', 'arbitrary')):
+    crate = os.path.join(pipeline.WORK, 'kani_' + tag)
+    os.makedirs(os.path.join(crate, 'src'), exist_ok=True)
+    dep_lines = ''
+    if 'serde' in deps:
+        dep_lines += 'serde = { version = "1", default-features = false, features = ["std"] }\n'
+    if 'arbitrary' in deps:
+        dep_lines += 'arbitrary = "1"\n'
+    with open(os.path.join(crate, 'Cargo.toml'), 'w') as f:
+        f.write('[package]\nname = "nutype_verif_kani_%s"\nversion = "0.0.0"\nedition = "2021"\n\n[workspace]\n\n'
+                '[dependencies]\nnutype = { path = "%s/nutype", features = %s }\n%s\n'
+                '[lints.rust]\nunexpected_cfgs = { level = "allow", check-cfg = [\'cfg(kani)\'] }\n'
+                % (tag.lower(), pipeline.REPO, json.dumps(sorted(features)), dep_lines))
+    shutil.copy(os.path.join(pipeline.REPO, 'Cargo.lock'), os.path.join(crate, 'Cargo.lock'))
+    with open(os.path.join(crate, 'src', 'lib.rs'), 'w') as f:
+        f.write(text)
+    return crate
+
+
+def run_kani(crate, harness_names=None, jobs=14, extra_flags=(), timeout=3000):
+    env = dict(pipeline.ENV)
+    env['CARGO_TARGET_DIR'] = os.path.join(pipeline.VERIF, 'target', 'kani')
+    cmd = ['cargo', 'kani', '-j', str(jobs), '--output-format', 'terse'] + KANI_FLAGS + list(extra_flags)
+    if harness_names:
+        for h in harness_names:
+            cmd += ['--harness', h]
+    rc, out, err, wall = pipeline.sh(cmd, cwd=crate, env=env, timeout=timeout)
+    return rc, out + '\n' + err, wall, ' '.join(cmd[:12]) + ' …'
+
+
+def parse_kani(output):
+    """terse -j output -> {harness: {status, failed_checks, covers, time}}"""
+    res = {}
+    cur_by_thread = {}
+    cur = None
+    for line in output.splitlines():
+        m = re.match(r'(?:Thread (\d+): )?Checking harness ([A-Za-z0-9_:]+)\.\.\.', line)
+        if m:
+            th = m.group(1) or '0'
+            name = m.group(2).split('::')[-1]
+            cur_by_thread[th] = name
+            res[name] = {'status': 'UNKNOWN', 'failed': [], 'covers': None, 'time': 0.0, 'text': ''}
+            cur = name if m.group(1) is None else cur
+            continue
+        m = re.match(r'Thread (\d+):\s*$', line)
+        if m:
+            cur = cur_by_thread.get(m.group(1))
+            continue
+        if cur is None or cur not in res:
+            continue
+        r = res[cur]
+        r['text'] += line + '\n'
+        m = re.match(r'Failed Checks: (.*)', line)
+        if m:
+            r['failed'].append(m.group(1).strip())
+        m = re.match(r'\s*\*\* (\d+) of (\d+) cover properties satisfied', line)
+        if m:
+            r['covers'] = (int(m.group(1)), int(m.group(2)))
+        if line.startswith('VERIFICATION:- SUCCESSFUL'):
+            r['status'] = 'SUCCESS'
+        elif line.startswith('VERIFICATION:- FAILED'):
+            r['status'] = 'FAILED'
+        m = re.match(r'Verification Time: ([0-9.]+)s', line)
+        if m:
+            r['time'] = float(m.group(1))
+    return res
+
+
+def kani_run_harnesses(out, prop, tag, decls, harnesses, extra_items='', features=('serde', 'arbitrary'), jobs=14, extra_flags=()):
+    if not harnesses:
+        return
+    t0 = time.time()
+    text = crate_text(decls, harnesses, extra_items)
+    crate = write_crate(tag, text, features=features)
+    rc, output, wall, cmd = run_kani(crate, jobs=jobs, extra_flags=extra_flags)
+    res = parse_kani(output)
+    out.checker_cmds.append('cargo kani -j %d --output-format terse -Z function-contracts -Z stubbing   (crate work/kani_%s, %d harnesses)' % (jobs, tag, len(harnesses)))
+    if not res:
+        out.undecided.append('kani crate %s did not build/run: %s' % (tag, output[-1500:]))
+        return
+    solver_s = 0.0
+    nb = 0
+    for h in harnesses:
+        r = res.get(h.name)
+        if r is None or r['status'] == 'UNKNOWN':
+            out.undecided.append('kani harness %s produced no verdict' % h.name)
+            continue
+        solver_s += r['time']
+        if h.bounded:
+            out.bounded.append('%s (%s): %s' % (h.key, h.bounded, r['status']))
+            nb += 1
+            if r['status'] == 'FAILED':
+                pass   # a bounded stand-in that fails is still a refutation: handled below
+            else:
+                continue
+        else:
+            out.obligations += 1
+        if r['status'] == 'SUCCESS':
+            if not h.should_panic and (r['covers'] is None or r['covers'][0] < 1):
+                out.undecided.append('kani harness %s: end of harness not reachable (vacuous)' % h.name)
+                continue
+            if not h.bounded:
+                out.discharged += 1
+            if len(out.samples) < 10 and (out.obligations % 17 == 1):
+                out.samples.append({'obligation': h.key, 'clause': h.clause, 'declaration': h.decl.source().strip(), 'backend': 'kani'})
+        else:
+            fc = '; '.join(r['failed'])
+            unwind = 'unwinding assertion' in fc
+            if unwind and not [x for x in r['failed'] if 'unwinding' not in x]:
+                out.undecided.append('kani harness %s: unwinding assertion failed (bound too small)' % h.name)
+                if not h.bounded:
+                    out.obligations -= 1
+                continue
+            out.failed.append({'key': h.key, 'backend': 'kani', 'message': fc[:500], 'detail': r['text'][-4000:],
+                               'decl': h.decl.id, 'decl_obj': h.decl, 'features': ('serde', 'arbitrary')})
+    kv = out.extra.setdefault('kani', {})
+    kv.update({'harnesses': len(harnesses), 'bounded_harnesses': nb, 'declarations': len(decls),
+               'solver_time_s': round(solver_s, 1), 'wall_s': round(time.time() - t0, 1)})
+    out.trusted += [t for t in report.KANI_TRUSTED if t not in out.trusted]
+
+
+# ------------------------------------------------------------------------------ catalogue (Kani side)
+FLOAT_DERIVES = ['Debug', 'Clone', 'Copy', 'PartialEq', 'PartialOrd', 'AsRef', 'Deref', 'Borrow', 'Into', 'TryFrom']
+
+
+def float_decls(tier='quick'):
+    out = []
+    for t in FLOAT_TYPES:
+        def sb(which):
+            return aux.sym_bound(which, t)
+        fin = Validator('finite')
+        for k in ('greater', 'greater_or_equal'):
+            b, n = sb('lo')
+            out.append(mk('flt_%s_%s_sym' % (t, k), 'float', t, validators=[Validator(k, b)], aux=[n], derives=FLOAT_DERIVES))
+        for k in ('less', 'less_or_equal'):
+            b, n = sb('hi')
+            out.append(mk('flt_%s_%s_sym' % (t, k), 'float', t, validators=[Validator(k, b)], aux=[n], derives=FLOAT_DERIVES))
+        out.append(mk('flt_%s_finite' % t, 'float', t, validators=[fin], derives=FLOAT_DERIVES + ['Eq', 'Ord']))
+        for lo in ('greater', 'greater_or_equal'):
+            for up in ('less', 'less_or_equal'):
+                bl, n1 = sb('lo')
+                bu, n2 = sb('hi')
+                out.append(mk('flt_%s_%s_%s_sym' % (t, lo, up), 'float', t, validators=[Validator(lo, bl), Validator(up, bu)],
+                              aux=[n1, n2], derives=FLOAT_DERIVES))
+                out.append(mk('flt_%s_fin_%s_%s_sym' % (t, lo, up), 'float', t, validators=[fin, Validator(lo, bl), Validator(up, bu)],
+                              aux=[n1, n2], derives=FLOAT_DERIVES + ['Eq', 'Ord']))
+        bl, n1 = sb('lo')
+        bu, n2 = sb('hi')
+        p, n3 = aux.custom('pred', t)
+        out.append(mk('flt_%s_le_ge_fin_sym' % t, 'float', t, validators=[Validator('less_or_equal', bu), Validator('greater_or_equal', bl), fin],
+                      aux=[n1, n2], derives=FLOAT_DERIVES + ['Eq', 'Ord']))
+        out.append(mk('flt_%s_pred_lt_fin' % t, 'float', t, validators=[Validator('predicate', fn=p), Validator('less', bu), fin],
+                      aux=[n2, n3], derives=FLOAT_DERIVES + ['Eq', 'Ord']))
+        v, n4 = aux.custom('vfn', t)
+        out.append(mk('flt_%s_custom' % t, 'float', t, custom_validation=v, custom_error='MyErr', aux=[n4, 'MyErr'], derives=FLOAT_DERIVES))
+        s, n5 = aux.custom('san', t)
+        out.append(mk('flt_%s_san_fin_le' % t, 'float', t, sanitizers=[Sanitizer('with', s)], validators=[fin, Validator('less_or_equal', bu)],
+                      aux=[n5, n2], derives=FLOAT_DERIVES + ['Eq', 'Ord']))
+        out.append(mk('flt_%s_san_nov' % t, 'float', t, sanitizers=[Sanitizer('with', s)], aux=[n5],
+                      derives=['Debug', 'Clone', 'Copy', 'PartialEq', 'PartialOrd', 'AsRef', 'Deref', 'Borrow', 'Into', 'From']))
+        out.append(mk('flt_%s_nothing' % t, 'float', t, derives=['Debug', 'Clone', 'Copy', 'PartialEq', 'PartialOrd', 'AsRef', 'Deref', 'Borrow', 'Into', 'From']))
+        # literal bounds (go through the macro's own number parser)
+        lits = [('zero', 'greater_or_equal', '0.0'), ('negzero', 'greater', '-0.0'), ('big', 'less', '1e30'), ('small', 'greater', '1e-30'),
+                ('neg', 'less_or_equal', '-2.5'), ('intlit', 'less_or_equal', '100'), ('under', 'greater_or_equal', '1_000.5')]
+        for tag, k, src in lits:
+            val = src.replace('_', '')
+            if '.' not in val and 'e' not in val:
+                val += '.0'
+            out.append(mk('flt_%s_%s_lit_%s' % (t, k, tag), 'float', t,
+                          validators=[Validator(k, Bound(src=src, spec='', ref='(%s as %s)' % (val, t)))], derives=FLOAT_DERIVES))
+        out.append(mk('flt_%s_fin_ge_le_lit_const' % t, 'float', t, const_fn=True,
+                      validators=[fin, Validator('greater_or_equal', Bound('-1.0', '', '(-1.0 as %s)' % t)), Validator('less_or_equal', Bound('1.0', '', '(1.0 as %s)' % t))],
+                      derives=FLOAT_DERIVES + ['Eq', 'Ord']))
+    for d in out:
+        d.verus = False
+        d.kani = True
+    return out
+
+
+def int_kani_decls(tier='quick'):
+    """integer declarations for the Kani-only obligations (derived comparison traits, hash, closures)"""
+    out = []
+    types = INT_TYPES if tier == 'thorough' else ['u8', 'i8', 'u16', 'i32', 'u64', 'i128', 'usize']
+    full = ['Debug', 'Clone', 'Copy', 'PartialEq', 'Eq', 'PartialOrd', 'Ord', 'Hash', 'AsRef', 'Deref', 'Borrow', 'Into', 'TryFrom']
+    for t in types:
+        bl, n1 = aux.sym_bound('lo', t)
+        bu, n2 = aux.sym_bound('hi', t)
+        out.append(mk('kint_%s_ge_le_sym' % t, 'int', t, validators=[Validator('greater_or_equal', bl), Validator('less_or_equal', bu)],
+                      aux=[n1, n2], derives=full))
+        s, n5 = aux.custom('san', t)
+        out.append(mk('kint_%s_san_nov' % t, 'int', t, sanitizers=[Sanitizer('with', s)], aux=[n5],
+                      derives=[x for x in full if x != 'TryFrom'] + ['From']))
+        # closure spellings: the closure text is the function's body, the reference calls the named twin
+        p, n3 = aux.custom('pred', t)
+        pc = Custom(name=p.name, src='|x| *x != 7', spec=p.spec)
+        pc2 = Custom(name=p.name, src='|x: &%s| *x != 7' % t, spec=p.spec)
+        sc = Custom(name=s.name, src='|x| if x > 50 { 50 } else { x }', spec=s.spec)
+        out.append(mk('kint_%s_closure_a' % t, 'int', t, sanitizers=[Sanitizer('with', sc)], validators=[Validator('predicate', fn=pc), Validator('less', bu)],
+                      aux=[n3, n5, n2], derives=['Debug', 'TryFrom']))
+        out.append(mk('kint_%s_closure_b' % t, 'int', t, validators=[Validator('greater', bl), Validator('predicate', fn=pc2)],
+                      aux=[n3, n1], derives=['Debug', 'TryFrom']))
+    for d in out:
+        d.verus = False
+        d.kani = True
+    return out
+
+
+# ------------------------------------------------------------------------------ per-property assembly
+def harnesses_for(prop, tier, seed):
+    decls = []
+    hs = []
+    extra = ''
+    if prop in ('C01', 'C07'):
+        fl = float_decls(tier)
+        ki = [d for d in int_kani_decls(tier) if 'closure' in d.id]
+        decls = fl + ki
+        for d in decls:
+            hs.append(h_ctor(d, [prop]))
+    elif prop == 'C03':
+        fl = [d for d in float_decls(tier)]
+        decls = fl
+        for d in decls:
+            if 'TryFrom' in d.derives:
+                hs.append(h_try_from(d, [prop]))
+            if 'From' in d.derives:
+                hs.append(h_from(d, [prop]))
+        decls += default_decls(tier)
+        for d in decls:
+            if 'Default' in d.derives:
+                hs.append(h_default(d, [prop], valid=not d.note.startswith('invalid-default')))
+    elif prop == 'C11':
+        decls = float_decls(tier)
+        for d in decls:
+            if not d.sanitizers:
+                hs.append(h_canonical(d, [prop]))
+    elif prop == 'C12':
+        decls = [d for d in float_decls(tier) if 'Ord' in d.derives]
+        for d in decls:
+            hs.append(h_float_ord(d, [prop]))
+    elif prop == 'C13':
+        decls = float_decls(tier) + [d for d in int_kani_decls(tier) if 'closure' not in d.id]
+        extra = HASHER
+        for d in decls:
+            hs.append(h_views(d, [prop]))
+            if 'PartialEq' in d.derives:
+                hs.append(h_cmp(d, [prop]))
+            if 'Hash' in d.derives:
+                hs.append(h_hash(d, [prop]))
+    return decls, hs, extra
+
+
+def default_decls(tier='quick'):
+    out = []
+    for t in ['i32', 'u8', 'f64', 'f32', 'i128']:
+        fl = t in FLOAT_TYPES
+        fam = 'float' if fl else 'int'
+        one = '1.0' if fl else '1'
+        bl = Bound('0.0' if fl else '0', '', '(0 as %s)' % t if not fl else '(0.0 as %s)' % t)
+        bu = Bound('10.0' if fl else '10', '', '(10 as %s)' % t if not fl else '(10.0 as %s)' % t)
+        s, n5 = aux.custom('san', t)
+        # valid literal default
+        out.append(mk('def_%s_valid' % t, fam, t, validators=[Validator('greater_or_equal', bl), Validator('less_or_equal', bu)],
+                      derives=['Debug', 'Default'], default='5.0' if fl else '5', default_ref='5.0' if fl else '5'))
+        # invalid default: must panic
+        d = mk('def_%s_invalid' % t, fam, t, validators=[Validator('greater_or_equal', bl), Validator('less_or_equal', bu)],
+               derives=['Debug', 'Default'], default='11.0' if fl else '11', default_ref='11.0' if fl else '11')
+        d.note = 'invalid-default'
+        out.append(d)
+        # default needing sanitisation (san clamps / abs): stored value must be the sanitized one
+        out.append(mk('def_%s_sanitized' % t, fam, t, sanitizers=[Sanitizer('with', s)], aux=[n5],
+                      validators=[Validator('less_or_equal', Bound('60.0' if fl else '60', '', '(60 as %s)' % t if not fl else '(60.0 as %s)' % t))],
+                      derives=['Debug', 'Default'], default='-3.0' if fl else '77', default_ref='-3.0' if fl else '77'))
+        out.append(mk('def_%s_nov' % t, fam, t, sanitizers=[Sanitizer('with', s)], aux=[n5],
+                      derives=['Debug', 'Default'], default='-3.0' if fl else '77', default_ref='-3.0' if fl else '77'))
+        # symbolic default expression: valid or invalid decided per execution
+        bls, n1 = aux.sym_bound('lo', t)
+        bus, n2 = aux.sym_bound('hi', t)
+        dv = mk('def_%s_symbolic_valid' % t, fam, t, validators=[Validator('greater_or_equal', bls)], aux=[n1, n2],
+                derives=['Debug', 'Default'], default='sym_hi_%s()' % t, default_ref='sym_hi_%s()' % t)
+        out.append(dv)
+    # strings: concrete defaults (CBMC executes them)
+    out.append(mk('def_str_valid', 'string', 'String', sanitizers=[Sanitizer('trim')], validators=[Validator('not_empty')],
+                  derives=['Debug', 'Default'], default='" ab "', default_ref='" ab "'))
+    ds = mk('def_str_invalid', 'string', 'String', sanitizers=[Sanitizer('trim')], validators=[Validator('not_empty')],
+            derives=['Debug', 'Default'], default='"  "', default_ref='"  "')
+    ds.note = 'invalid-default'
+    out.append(ds)
+    out.append(mk('def_str_nov', 'string', 'String', sanitizers=[Sanitizer('trim')],
+                  derives=['Debug', 'Default'], default='" x "', default_ref='" x "'))
+    for d in out:
+        d.verus = False
+        d.kani = True
+    return out
 
 
 def kani_part(out, prop, tier, seed):
-    return
+    decls, hs, extra = harnesses_for(prop, tier, seed)
+    if hs:
+        kani_run_harnesses(out, prop, prop, decls, hs, extra_items=extra)
 
 
 def warm():
-    return
+    out = report.Outcome('warm', 'quick', 0)
+    d = float_decls('quick')[:1]
+    kani_run_harnesses(out, 'warm', 'warm', d, [h_ctor(d[0], ['warm'])])
